@@ -125,6 +125,7 @@ include hs
 
 theorem battrParse_ok (attrs : Str) : Ok (battrParse rec env attrs) := by
   have hr := replaceInline_ok rec env hs
+  have hmr := macrosRender_ok rec env hs
   have hp := expandParse_ok
   have ho1 : ∀ (t : Str) (m1 : Match), Gen.P.blockattributes_parse_0.matchStart t = some m1 → ∀ i, i ≤ 1 → ∀ s,
       ∃ a, (m1.orEmpty i).run s = .ok (a, s) := fun t m1 h i hi =>
